@@ -272,6 +272,10 @@ func puppetCompileFor(tokens []string, ref *puppetRef, val string, E, puppetAddr
 			case f[0] == "Z":
 				// zero-value CALL to a module account (touches the account)
 				out = append(out, puppetCall(0, common.BytesToAddress(authtypes.NewModuleAddress(f[1]).Bytes()), big.NewInt(0), nil)...)
+			case f[0] == "z":
+				// value CALL to a module account (node-world histories only: the credit is refused when the transaction's
+				// state is committed, so the transaction fails as a whole)
+				out = append(out, puppetCall(0, common.BytesToAddress(authtypes.NewModuleAddress(f[1]).Bytes()), mustBig(f[2]), nil)...)
 			case f[0] == "U":
 				amt := mustBig(f[1])
 				in, _ := sabi.Pack("undelegate", E, val, amt)
